@@ -669,13 +669,32 @@ class Inliner:
             if tn & set(env):
                 return None
             # nested loops / filters around one `yield E` or `yield from X`: the generator expression with the same clauses
-            if len(lp.body) == 1 and (isinstance(lp.body[0], (ast.For, ast.If)) or (isinstance(lp.body[0], ast.Expr) and isinstance(lp.body[0].value, ast.YieldFrom))):
+            def peel(blk):
+                """pure single-name temporaries at the head of a loop body written into the statement that follows them"""
+                blk = [x for x in blk if not (isinstance(x, ast.Expr) and isinstance(x.value, ast.Constant))]
+                sub_ = {}
+                while len(blk) > 1 and isinstance(blk[0], ast.Assign) and len(blk[0].targets) == 1 and isinstance(blk[0].targets[0], ast.Name):
+                    v_ = norm._Subst(dict(sub_)).visit(copy.deepcopy(blk[0].value))
+                    nm_ = blk[0].targets[0].id
+                    if not norm.is_pure(v_, _PURE_EXT) or nm_ in env or nm_ in norm._assigned_names(blk[1:]):
+                        return None
+                    sub_[nm_] = v_
+                    blk = blk[1:]
+                if len(blk) != 1:
+                    return None
+                return norm._Subst(dict(sub_)).visit(copy.deepcopy(blk[0])) if sub_ else blk[0]
+            lp_one = peel(lp.body)
+            if lp_one is not None and (isinstance(lp_one, (ast.For, ast.If)) or (isinstance(lp_one, ast.Expr) and isinstance(lp_one.value, ast.YieldFrom))) \
+                    and not (len(lp.body) == 1 and isinstance(lp_one, ast.If) and lp_one.orelse):
                 gens = []
 
                 def nest(st):
-                    if isinstance(st, ast.For) and not st.orelse and len(st.body) == 1 and not st.type_comment:
+                    if isinstance(st, ast.For) and not st.orelse and not st.type_comment:
+                        one = peel(st.body)
+                        if one is None:
+                            return None
                         gens.append(ast.comprehension(target=copy.deepcopy(st.target), iter=copy.deepcopy(st.iter), ifs=[], is_async=0))
-                        return nest(st.body[0])
+                        return nest(one)
                     if isinstance(st, ast.If) and not st.orelse and len(st.body) == 1 and gens:
                         gens[-1].ifs.append(copy.deepcopy(st.test))
                         return nest(st.body[0])
@@ -694,7 +713,7 @@ class Inliner:
                     ast.copy_location(val, call)
                     ast.fix_missing_locations(val)
                     return val
-                if not (isinstance(lp.body[0], ast.If) and lp.body[0].orelse):
+                if not (isinstance(lp_one, ast.If) and lp_one.orelse):
                     return None
 
             class Y(ast.NodeTransformer):
@@ -3325,6 +3344,7 @@ class Canon:
         b = norm.default_then_override(b)
         b = self.expand_replace(b, module)
         b = self.sroa_value_records(b, module)
+        b = norm.thread_none_flags(b)           # a decision recorded in `v is None` and asked again straight afterwards
         b = norm.fold_none_tests(b)             # `if count is not None` on a count a helper just computed
         b = self.thread_sentinels(b, module)
         b = self.fold_enum_tests(b, module)
